@@ -244,6 +244,28 @@ fn judge_line(case: &Case, l: &mut Local) {
     let dir = dirs()[case.dir];
     let r = case.r0;
     let c = Circle2::new(off.x, off.y, r);
+    // a line constructed as the tangent at a point of the perimeter (perpendicular to the radius there): its
+    // distance from the centre equals the radius up to rounding, far inside the routine's own tangency band
+    // of 1e-10, so exactly one point comes back
+    for k in 0..24 {
+        l.eval();
+        let a = 0.05 + k as f64 * std::f64::consts::TAU / 24.0 + 0.1 * case.dir as f64;
+        let tp = c.point_at_angle(a);
+        let td = Vector2::new(-a.sin(), a.cos());
+        for len in [0.75, 3.0] {
+            if let Ok(seg) = Segment2::try_new(tp - td * (len * r), tp + td * (len * r)) {
+                match guarded(|| c.intersection(&seg)) {
+                    Ok(p) => {
+                        l.bucket("line built as a tangent at a perimeter point");
+                        l.check("line-circle: one point when tangent", "constructed tangent", p.len() == 1 && (p[0] - tp).norm() <= 1e-6 * (1.0 + r + off.norm()), mk, || format!("tangent at angle {} of r {}: {:?}", a, r, p));
+                    }
+                    Err(m) => {
+                        l.check("line-circle intersection returns", "panic", false, mk, || m.clone());
+                    }
+                }
+            }
+        }
+    }
     for ox in -3..=3 {
         for oy in -3..=3 {
             for scale in [1.0, 2.5] {
@@ -650,7 +672,7 @@ pub fn run(tier: Tier) -> i32 {
     let mut cx = Ctx::new("C11", tier, "exploration");
     cx.rule = "circle pairs: r0 in {0.5,1,2} x r1 in {0.5,1,2,3} x 6 regimes (concentric, nested, internally tangent, crossing, externally tangent, separate) x 13 directions (4 exactly representable) x 2 global offsets; external points at d/r in {1+1e-6, 1.2, sqrt2, 2, 5, 100} x 13 directions x 3 radii; outer tangents over radius pairs x 4 separations; lines/segments through a 7x7 grid of origins x 13 directions x 2 lengths; every small lattice curve against 5 circles; every ordered pair of integer points of a 13x13 lattice as a segment against integer circles (r in {1,2,5}, two centres), count decided in exact integer arithmetic; arcs over 3 centres x 2 radii x 30 start angles (k*pi/2 and +-1e-9) x 12 signed sweeps up to +-2pi; three-point arcs from every ordered triple of the 3x3 lattice at 3 scales and 2 offsets. distinct = distinct cases".into();
     cx.bounds = json!({"directions": dirs().len(), "ratios": RATIOS, "separations": SEPS, "sweeps": SWEEPS.len(), "start_angles": arc_angles().len()});
-    cx.require(&["concentric", "nested", "internally tangent", "crossing", "externally tangent", "separate", "arc of one circle inside the other", "circle from another constructor", "interval of tangent circles", "tangent from d/r = sqrt 2", "tangent from another distance ratio", "outer tangents, equal radii", "outer tangents, larger to smaller", "outer tangents, smaller to larger", "line tangent to the circle", "line missing the circle", "line crossing the circle", "curve against circle", "segment with an end point exactly on the circle", "segment missing the circle", "segment crossing the circle", "clockwise arc", "counter-clockwise arc", "collinear triple", "general triple", "general triple with coordinates below 0.01"]);
+    cx.require(&["concentric", "nested", "internally tangent", "crossing", "externally tangent", "separate", "arc of one circle inside the other", "circle from another constructor", "interval of tangent circles", "tangent from d/r = sqrt 2", "tangent from another distance ratio", "outer tangents, equal radii", "outer tangents, larger to smaller", "outer tangents, smaller to larger", "line tangent to the circle", "line built as a tangent at a perimeter point", "line missing the circle", "line crossing the circle", "curve against circle", "segment with an end point exactly on the circle", "segment missing the circle", "segment crossing the circle", "clockwise arc", "counter-clockwise arc", "collinear triple", "general triple", "general triple with coordinates below 0.01"]);
     cx.assume("exact tangency (one point) is demanded only along exactly representable directions; elsewhere either neighbour count is accepted (gray)");
     let cs = cases(tier);
     let l = sweep(&cs, judge);
